@@ -90,11 +90,27 @@ func flagArgs(flags uint8) []string {
 	return []string{"-m=" + b(FlagM), "-e=" + b(FlagE), "-o=" + b(FlagO), "-c=" + b(FlagC), "-a=" + b(FlagA)}
 }
 
-func runBinary(dir string, args []string, stdin *string, tz string) (*BinResult, error) {
+// variant (drawn from the plan's PRNG value, never from the scratch directory's random name) selects
+// the spelling of the directory argument and the logging flags, so a replay takes the same path.
+func runBinary(dir string, variant uint64, args []string, stdin *string, tz string) (*BinResult, error) {
+	return runBinaryLimited(dir, variant, args, stdin, tz, 0)
+}
+
+// prlimitBin: util-linux prlimit, used to give the real binary a file size limit (RLIMIT_FSIZE) so
+// that the kernel cuts one of its writes short at a chosen byte: a real short write on a real file.
+func prlimitBin() string {
+	p, err := exec.LookPath("prlimit")
+	if err != nil {
+		return ""
+	}
+	return p
+}
+
+func runBinaryLimited(dir string, variant uint64, args []string, stdin *string, tz string, fsize int64) (*BinResult, error) {
 	// the directory argument as a user might type it: plain, with a trailing slash, or through a
 	// symbolic link followed by ".." (which the kernel resolves physically, not textually)
 	argDir := dir
-	switch len(dir) % 5 {
+	switch variant % 5 {
 	case 1:
 		argDir = dir + "/"
 	case 2:
@@ -113,12 +129,15 @@ func runBinary(dir string, args []string, stdin *string, tz string) (*BinResult,
 		}
 	}
 	full := append([]string{"sign", argDir}, args...)
-	if len(dir)%3 == 0 {
+	if (variant/5)%3 == 0 {
 		full = append(full, "-d") // debug logging on: the log statements format their arguments
-	} else if len(dir)%3 == 1 {
+	} else if (variant/5)%3 == 1 {
 		full = append(full, "-v")
 	}
 	cmd := exec.Command(gopkiBin(), full...)
+	if fsize > 0 {
+		cmd = exec.Command(prlimitBin(), append([]string{fmt.Sprintf("--fsize=%d", fsize), gopkiBin()}, full...)...)
+	}
 	if tz == "" {
 		tz = "UTC"
 	}
@@ -231,7 +250,7 @@ func laneP_C10(t *testing.T, plan *Plan, w *World, sink *Sink) {
 			if a != "" {
 				in = &a
 			}
-			res, err := runBinary(dir, flagArgs(first.Op.Flags), in, plan.TZ)
+			res, err := runBinary(dir, Mix(plan.Seed, 77), flagArgs(first.Op.Flags), in, plan.TZ)
 			if err != nil {
 				sink.res.Harness = append(sink.res.Harness, "lane P run: "+err.Error())
 				return
@@ -274,7 +293,7 @@ func laneP_C10(t *testing.T, plan *Plan, w *World, sink *Sink) {
 			}
 			// second invocation, same flags: nothing may change, no prompt may appear
 			mid, _ := readDirSnap(dir)
-			res2, err := runBinary(dir, flagArgs(first.Op.Flags), nil, plan.TZ)
+			res2, err := runBinary(dir, Mix(plan.Seed, 78), flagArgs(first.Op.Flags), nil, plan.TZ)
 			if err != nil {
 				sink.res.Harness = append(sink.res.Harness, "lane P run2: "+err.Error())
 				return
